@@ -123,6 +123,13 @@ def holdFrame (k : WKind) (new o : Obj) : Bool :=
   | .daemonSet | .stsLike => { o with us := new.us, inProgress := new.inProgress } == new && usTypeKept new.us o.us
   | .notHandled => o == new
 
+/-- Deployment: the stable-revision label is left alone, or set to the `pod-template-hash` label of
+    a ReplicaSet of the Deployment that still runs pods and whose template differs from the
+    submitted one. -/
+def stableRevOk (rq : Req) (o : Obj) : Bool :=
+  o.stableRev == rq.new.stableRev ||
+  (activeRS rq).any fun rs => rs.hashLabel == o.stableRev && rs.tmplBody != rq.new.tmpl.body
+
 /-- Observation III.3 #15: an Advanced DaemonSet without `updateStrategy.rollingUpdate`. -/
 def dsNoRollingUpdate (rq : Req) : Bool :=
   wkind rq == .daemonSet &&
@@ -171,6 +178,7 @@ def holdOk (rq : Req) (out : Outcome) : Bool :=
     else if dsNoRollingUpdate rq then out == .panic
     else match out with
       | .admitted o => heldBack (wkind rq) o && o.inProgress == .rollout r.name && holdFrame (wkind rq) rq.new o
+                       && stableRevOk rq o
       | _ => false
 
 /-- C08.iv — whatever the shape of the request: a must-hold request is never admitted
